@@ -13,7 +13,7 @@ from typing import Any, Dict, List, Optional, Tuple
 from harness.common import VirtualTimeLoop, exc_token
 from vk.core import Case, Ctx
 
-GEN_MODULES: List[str] = ["C12Profile"]
+GEN_MODULES: List[str] = ["C12Profile", "C12ServiceTypes"]
 MANIFEST = {
     "design_ref": "§5 C12",
     "text": ("Lean theorems over the executable model of UpnpProfileDevice's subscription life cycle (subscribe loop with "
@@ -35,7 +35,8 @@ MANIFEST = {
              "correspondence is sampled."),
     "technique": "Lean 4 proof (invariants over an event-driven executable model) + generated constants/shape pins + model/implementation correspondence on a virtual-time loop",
 }
-RULE = ("timelines over a generated DmrDevice/IgdDevice profile (0..4 profile services + foreign services): ops "
+RULE = ("timelines over generated DmrDevice/DmsDevice/IgdDevice profiles (0..4 profile services in every documented version "
+        "of every service/device type + foreign services): ops "
         "sub(auto)/wait/unsub with a scripted publisher (reaction ok/new SID/refuse/unreachable/comm error, granted timeout "
         "61..1800 s/infinite/absent, latency 0..300 s per request); unsubscribe injected at every distinct event time of a run "
         "(thorough) ; non-trivial = at least one renewal round ran; distinct = distinct canonical driver text. Tags record the "
@@ -55,27 +56,50 @@ SPIN_LIMIT = 400       # time.monotonic() calls within one loop iteration => the
 ZENO_LIMIT = 300      # loop iterations without virtual time advancing
 FUEL_AWAITS = 2000     # model-side bound on task awaits per `wait` (mirrors ZENO_LIMIT loosely; compared leniently)
 
-POOL = {
-    "dmr": {
-        "device_type": "urn:schemas-upnp-org:device:MediaRenderer:1",
-        "RC": "urn:schemas-upnp-org:service:RenderingControl:1",
-        "RC2": "urn:schemas-upnp-org:service:RenderingControl:2",
-        "AVT": "urn:schemas-upnp-org:service:AVTransport:1",
-        "CM": "urn:schemas-upnp-org:service:ConnectionManager:1",
-        "X1": "urn:schemas-upnp-org:service:Dummy:1",
-        "X2": "urn:example-org:service:Other:1",
-    },
-    "igd": {
-        "device_type": "urn:schemas-upnp-org:device:InternetGatewayDevice:1",
-        "L3": "urn:schemas-upnp-org:service:Layer3Forwarding:1",
-        "CIC": "urn:schemas-upnp-org:service:WANCommonInterfaceConfig:1",
-        "IPC": "urn:schemas-upnp-org:service:WANIPConnection:1",
-        "PPPC": "urn:schemas-upnp-org:service:WANPPPConnection:1",
-        "X1": "urn:schemas-upnp-org:service:Dummy:1",
-        "X2": "urn:example-org:service:Other:1",
-    },
-}
-INTERESTING = {"dmr": ["RC", "RC2", "AVT", "CM"], "igd": ["L3", "CIC", "IPC", "PPPC"]}
+PROFILES = {"dmr": "DmrDevice", "dms": "DmsDevice", "igd": "IgdDevice"}
+FOREIGN = {"X1": "urn:schemas-upnp-org:service:Dummy:1", "X2": "urn:example-org:service:Other:1"}
+# short names used by the corpus / random generators
+SHORT = {"RC": "RC:1", "RC2": "RC:2", "AVT": "AVT:1", "CM": "CM:1", "CD": "CD:1",
+         "L3": "L3FWD:1", "CIC": "WANCIC:1", "IPC": "WANIPC:1", "PPPC": "WANPPPC:1"}
+INTERESTING = {"dmr": ["RC", "RC2", "AVT", "CM"], "dms": ["CD", "CM"], "igd": ["L3", "CIC", "IPC", "PPPC"]}
+
+
+def load_service_max():
+    """the documented maxima pinned in lean/Upnp/Model/C12ServiceMax.lean (single source for model and harness):
+    {class: {alias: (urn prefix, max version)}}, {class: (device urn prefix, max version)}"""
+    import re
+    from pathlib import Path
+    text = (Path(__file__).resolve().parent.parent / "lean" / "Upnp" / "Model" / "C12ServiceMax.lean").read_text()
+    svc: Dict[str, Dict[str, Tuple[str, int]]] = {}
+    dev: Dict[str, Tuple[str, int]] = {}
+    for m in re.finditer(r'\("(\w+)"\.toList, "(\w+)"\.toList, "([^"]+)"\.toList, (\d+)\)', text):
+        svc.setdefault(m.group(1), {})[m.group(2)] = (m.group(3), int(m.group(4)))
+    for m in re.finditer(r'\("(\w+)"\.toList, "(urn:[^"]+:device:[^"]+)"\.toList, (\d+)\)', text):
+        dev[m.group(1)] = (m.group(2), int(m.group(3)))
+    if not svc or not dev:
+        raise RuntimeError("cannot read Model/C12ServiceMax.lean")
+    return svc, dev
+
+
+SERVICE_MAX, DEVICE_MAX = load_service_max()
+
+
+def resolve(profile: str, key: str) -> Tuple[str, bool]:
+    """service key -> (service type URN, is it one of the profile's services per the documented tables?)"""
+    if key in FOREIGN:
+        return FOREIGN[key], False
+    key = SHORT.get(key, key)
+    alias, ver = key.split(":")
+    table = SERVICE_MAX[PROFILES[profile]]
+    if alias not in table:
+        raise ValueError(f"unknown service key {key} for {profile}")
+    prefix, vmax = table[alias]
+    return f"{prefix}:{ver}", int(ver) <= vmax
+
+
+def is_interesting(profile: str, key: str) -> bool:
+    return resolve(profile, key)[1]
+
 
 SCPD = """<?xml version="1.0"?>
 <scpd xmlns="urn:schemas-upnp-org:service-1-0"><specVersion><major>1</major><minor>0</minor></specVersion>
@@ -84,14 +108,18 @@ SCPD = """<?xml version="1.0"?>
 </scpd>"""
 
 
-def device_xml(profile: str, services: List[str]) -> str:
-    pool = POOL[profile]
+def path_of(key: str) -> str:
+    return key.replace(":", "_")
+
+
+def device_xml(profile: str, services: List[str], devver: int = 1) -> str:
     svc = "".join(
-        f"<service><serviceType>{pool[s]}</serviceType><serviceId>urn:upnp-org:serviceId:{s}</serviceId>"
-        f"<controlURL>/c/{s}</controlURL><eventSubURL>/e/{s}</eventSubURL><SCPDURL>/scpd.xml</SCPDURL></service>"
+        f"<service><serviceType>{resolve(profile, s)[0]}</serviceType><serviceId>urn:upnp-org:serviceId:{path_of(s)}</serviceId>"
+        f"<controlURL>/c/{path_of(s)}</controlURL><eventSubURL>/e/{path_of(s)}</eventSubURL><SCPDURL>/scpd.xml</SCPDURL></service>"
         for s in services)
+    device_type = f"{DEVICE_MAX[PROFILES[profile]][0]}:{devver}"
     return (f'<?xml version="1.0"?><root xmlns="urn:schemas-upnp-org:device-1-0"><specVersion><major>1</major><minor>0</minor>'
-            f"</specVersion><device><deviceType>{pool['device_type']}</deviceType><friendlyName>d</friendlyName>"
+            f"</specVersion><device><deviceType>{device_type}</deviceType><friendlyName>d</friendlyName>"
             f"<manufacturer>m</manufacturer><modelName>n</modelName><UDN>uuid:c12</UDN><serviceList>{svc}</serviceList>"
             f"</device></root>")
 
@@ -165,17 +193,23 @@ class Sim:
         self.loop = Loop()
         self.ft = FakeTime(self.loop)
         self.loop.faketime = self.ft
-        inter = [s for s in self.services if s in INTERESTING[self.profile_name]]
+        self.devver = int(recipe.get("devver", 1))
+        inter = [s for s in self.services if is_interesting(self.profile_name, s)]
         self.n = len(inter)
         self.svc_index: Dict[str, int] = {}
         k = 0
         for j, s in enumerate(self.services):
-            if s in INTERESTING[self.profile_name]:
-                self.svc_index[f"/e/{s}"] = k
+            if is_interesting(self.profile_name, s):
+                self.svc_index[f"/e/{path_of(s)}"] = k
                 k += 1
             else:
-                self.svc_index[f"/e/{s}"] = 100 + j
+                self.svc_index[f"/e/{path_of(s)}"] = 100 + j
         self.stopped = False
+        self.tags.add(f"devver:{self.profile_name}:{self.devver}")
+        for sname in self.services:
+            if is_interesting(self.profile_name, sname):
+                a, v = SHORT.get(sname, sname).split(":")
+                self.tags.add(f"ver:{self.profile_name}:{a}:{v}")
         self.inflight: List[str] = []     # requests currently awaiting their reply (publisher side)
         self.in_call: Optional[str] = None
         self.fresh_task = None
@@ -189,7 +223,7 @@ class Sim:
         path = "/" + path
         if method == "GET":
             if path == "/device.xml":
-                return 200, make_headers({}), device_xml(self.profile_name, self.services)
+                return 200, make_headers({}), device_xml(self.profile_name, self.services, self.devver)
             return 200, make_headers({}), SCPD
         reac, tmo, lat = self.script[self.pos] if self.pos < len(self.script) else self.default
         self.pos += 1
@@ -310,7 +344,8 @@ class Sim:
         logging.getLogger("async_upnp_client").setLevel(logging.CRITICAL + 1)
         from async_upnp_client.client_factory import UpnpFactory
         from async_upnp_client.event_handler import UpnpEventHandler, UpnpNotifyServer
-        from async_upnp_client.profiles.dlna import DmrDevice
+        from async_upnp_client.exceptions import UpnpError
+        from async_upnp_client.profiles.dlna import DmrDevice, DmsDevice
         from async_upnp_client.profiles.igd import IgdDevice
 
         class Notify(UpnpNotifyServer):
@@ -328,10 +363,16 @@ class Sim:
                 raise RuntimeError(f"device creation failed: {res}")
             self.device = dev
             self.handler = UpnpEventHandler(Notify(), self)
-            cls = DmrDevice if self.profile_name == "dmr" else IgdDevice
-            self.profile = cls(dev, self.handler)
-            self.profile.on_event = self.on_event
+            cls = {"dmr": DmrDevice, "dms": DmsDevice, "igd": IgdDevice}[self.profile_name]
             self.lines.append(f"cfg {self.n}")
+            try:
+                self.profile = cls(dev, self.handler)
+            except UpnpError as e:
+                # a device of a documented version of the profile's device type is not recognised at all
+                self.lines.append(f"o noprofile {exc_token(e)}")
+                self.tags.add("noprofile")
+                return
+            self.profile.on_event = self.on_event
             self.lines.append("script " + (",".join(f"{r}:{t}:{l}" for r, t, l in self.script) or "~"))
             self.lines.append("default " + ":".join(str(x) for x in self.default))
             try:
@@ -467,13 +508,20 @@ def rand_tmo(rng):
     return rng.choice(TMOS) if rng.random() < 0.8 else rng.randrange(61, 1801)
 
 
-def rand_recipe(rng, calm: bool) -> Dict[str, Any]:
-    profile = rng.choice(["dmr", "igd"])
-    inter = list(INTERESTING[profile])
-    rng.shuffle(inter)
+def rand_services(rng, profile: str) -> Tuple[List[str], int]:
+    """0..4 profile services (any documented version, sometimes two versions of one type) + foreign ones"""
+    table = SERVICE_MAX[PROFILES[profile]]
+    keys = [f"{a}:{v}" for a, (_, vmax) in sorted(table.items()) for v in range(1, vmax + 1)]
+    rng.shuffle(keys)
     k = rng.choice([0, 1, 1, 2, 2, 3, 3, 4])
-    services = inter[:k] + rng.sample(["X1", "X2"], rng.choice([0, 0, 1, 2]))
+    services = keys[:k] + rng.sample(["X1", "X2"], rng.choice([0, 0, 1, 2]))
     rng.shuffle(services)
+    return services, k
+
+
+def rand_recipe(rng, calm: bool) -> Dict[str, Any]:
+    profile = rng.choice(["dmr", "dmr", "igd", "igd", "dms"])
+    services, k = rand_services(rng, profile)
     n = max(k, 1)
     script = []
     for _ in range(rng.randrange(0, 40)):
@@ -500,14 +548,35 @@ def rand_recipe(rng, calm: bool) -> Dict[str, Any]:
             ops.append(["unsub"])
             if rng.random() < 0.6:
                 ops.append(["wait", rng.choice(WAITS)])
-    return {"profile": profile, "services": services, "script": script, "default": default, "ops": ops}
+    return {"profile": profile, "services": services, "devver": rng.randrange(1, DEVICE_MAX[PROFILES[profile]][1] + 1),
+            "script": script, "default": default, "ops": ops}
+
+
+def version_recipes() -> List[Dict[str, Any]]:
+    """every documented version of every service type of every profile, each in turn (incl. the highest), and every
+    documented version of the profile's device type"""
+    out: List[Dict[str, Any]] = []
+    ops = [["sub", 1], ["wait", 100125], ["unsub"]]
+    for profile, cls in sorted(PROFILES.items()):
+        table = SERVICE_MAX[cls]
+        devmax = DEVICE_MAX[cls][1]
+        top = max([devmax] + [vmax for _, vmax in table.values()])
+        for v in range(1, top + 1):     # a device of generation v: every service at version min(v, its maximum)
+            services = [f"{a}:{min(v, vmax)}" for a, (_, vmax) in sorted(table.items())] + ["X1"]
+            out.append({"profile": profile, "services": services, "devver": min(v, devmax), "script": [],
+                        "default": ["ok", 300, 0], "ops": ops})
+        for a, (_, vmax) in sorted(table.items()):   # one service alone, each version in turn
+            for v in range(1, vmax + 1):
+                out.append({"profile": profile, "services": ["X2", f"{a}:{v}"], "devver": 1, "script": [],
+                            "default": ["ok", 300, 0], "ops": ops})
+    return out
 
 
 def lost_then_resub_recipe(rng) -> Dict[str, Any]:
     """every renewal of the first round fails (the renewal task ends by itself), then the caller
     subscribes again with auto-renewal and waits well past the new expiry (F12c family)"""
-    profile = rng.choice(["dmr", "igd"])
-    k = rng.choice([1, 1, 2, 3])
+    profile = rng.choice(["dmr", "igd", "dms"])
+    k = rng.choice([1, 1, 2, 3]) if profile != "dms" else rng.choice([1, 2])
     services = list(INTERESTING[profile])[:k] + rng.sample(["X1", "X2"], rng.choice([0, 1]))
     rng.shuffle(services)
     script = [["ok", rng.choice([61, 90, 120, 300]), rng.choice([0, 125])] for _ in range(k)]
@@ -595,6 +664,10 @@ def generate(ctx: Ctx) -> List[Case]:
     cases: List[Case] = []
     for i, rec in enumerate(CORPUS):
         cases.append(run_recipe(ctx, rec, f"corpus{i}"))
+    for i, rec in enumerate(version_recipes()):
+        c = run_recipe(ctx, rec, f"ver{i}")
+        c.tags.append("gen:versions")
+        cases.append(c)
     for i, rec in enumerate(CORPUS[:6]):
         cases.extend(unsub_points(ctx, rec, f"cp{i}", 400000, 40))
     if not ctx.thorough:
@@ -614,7 +687,10 @@ REQUIRED_TAGS = ([f"tmo:s{k}:{b}" for k in range(3) for b in ("61-120", "121-600
                  + [f"round:{r}" for r in ("ok", "new", "refuse", "unreach", "comm")]
                  + [f"lat:{b}" for b in ("0", "<1s", "<60s", "1-2min", ">=2min")]
                  + [f"unsubpoint:{p}" for p in ("task-not-started", "sleeping", "inflight-renewal", "inflight-fallback",
-                                                "task-ended", "notask")])
+                                                "task-ended", "notask")]
+                 + [f"ver:{p}:{a}:{v}" for p, c in sorted(PROFILES.items()) for a, (_, vmax) in sorted(SERVICE_MAX[c].items())
+                    for v in range(1, vmax + 1)]
+                 + [f"devver:{p}:{v}" for p, c in sorted(PROFILES.items()) for v in range(1, DEVICE_MAX[c][1] + 1)])
 
 
 def extra_evidence(ctx: Ctx, cases: List[Case], verdicts) -> Dict[str, Any]:
